@@ -701,18 +701,25 @@ static bool enc_fits(int e, size_t sz)
 
 /* payload of NAL i: a NAL header octet, then octets >= 0x80 (no start code
  * or escape can appear), different for every NAL */
-static void t1_payload(uint8_t *p, size_t sz, int i)
+/* content variant pv: 0 = parameter sets / IDR slice headers and octets >= 0x80; 1 = NAL headers 0x01 / 0x41 (slices of
+ * non-reference and reference pictures: the header octet equals the last octet of a start code); 2 = as 1, and the second
+ * and last payload octets are 0x01 too (a lone 0x00 / 0x01 is legal inside a NAL, only 00 00 0x needs an escape) */
+static void t1_payload_pv(uint8_t *p, size_t sz, int i, int pv)
 {
-    static const uint8_t hdr[3] = {0x67, 0x68, 0x65};
-    p[0] = hdr[i % 3];
+    static const uint8_t hdr[3][3] = {{0x67, 0x68, 0x65}, {0x01, 0x01, 0x41}, {0x01, 0x41, 0x01}};
+    p[0] = hdr[pv][i % 3];
     for (size_t j = 1; j < sz; j++)
         p[j] = 0x80 | (uint8_t)((j * 7 + i * 29 + (j >> 8) * 3 + 1) & 0x7f);
+    if (pv == 2 && sz >= 2)
+        p[1] = p[sz - 1] = 0x01;
 }
 
 struct t1frame {
     int n;
     size_t sz[3];
+    int pv;
 };
+#define t1_payload(p_, sz_, i_) t1_payload_pv(p_, sz_, i_, f->pv)
 
 /* reference writer: the frame in encapsulation e (sc[i] = start code size of
  * NAL i for Annex B); off[i] = offset of NAL i, off[n] = total */
@@ -754,7 +761,9 @@ static void t1_id(const struct t1case *c, char *id, size_t n)
     for (int i = 0; i < c->ncut; i++)
         o += snprintf(id + o, n - o, "%s%zu", i ? "," : "", c->cut[i]);
     if (!c->ncut)
-        snprintf(id + o, n - o, "-");
+        o += snprintf(id + o, n - o, "-");
+    if (c->f.pv)
+        snprintf(id + o, n - o, "/pv=%d", c->f.pv);
 }
 
 static struct px_fix t1_fx;
@@ -1100,17 +1109,24 @@ static void t1_main(void)
         for (int i = 0; i < n; i++)
             tot *= ns;
         for (int k = 0; k < tot && !deadline_hit(); k++) {
-            struct t1frame f = {n, {0, 0, 0}};
+            struct t1frame f = {n, {0, 0, 0}, 0};
             int r = k;
             for (int i = 0; i < n; i++) {
                 f.sz[i] = sz[r % ns];
                 r /= ns;
             }
             t1_frame(&f);
+            /* content variants on the small sizes (and on everything in the thorough tier) */
+            bool small = true;
+            for (int i = 0; i < n; i++)
+                small &= f.sz[i] <= 2;
+            if (small || g_thorough)
+                for (f.pv = 1; f.pv <= 2; f.pv++)
+                    t1_frame(&f);
         }
     }
     if (!g_thorough && !deadline_hit()) {
-        struct t1frame f = {3, {1, 65536, 2}};
+        struct t1frame f = {3, {1, 65536, 2}, 0};
         t1_frame(&f);
     }
     char sig[64];
@@ -1136,6 +1152,13 @@ static bool t1_replay(const char *id)
     for (int i = 0; i < c.f.n; i++)
         if (c.f.sz[i] < 1 || c.f.sz[i] > 65536)
             return false;
+    char *pvs = strstr(cuts, "/pv=");
+    if (pvs) {
+        c.f.pv = atoi(pvs + 4);
+        *pvs = 0;
+        if (c.f.pv < 0 || c.f.pv > 2)
+            return false;
+    }
     if (cuts[0] != '-')
         c.ncut = sscanf(cuts, "%zu,%zu", &c.cut[0], &c.cut[1]);
     t1_alloc();
